@@ -56,6 +56,9 @@ impl<T> Stack<T> {
     pub fn is_empty(&self) -> bool {
         self.vec.is_empty()
     }
+    pub fn is_over_limit(&self) -> bool {
+        self.vec.len() > self.max_len()
+    }
     pub fn is_full(&self) -> bool {
         self.vec.len() > self.max_len() - 32
     }
